@@ -113,8 +113,12 @@ def hash_loop(F, rep, q, rule):
         return None
     an = analyze_fn(F, fn)
     w = wh(fn["span"])
+    if len(an.loops) == 0:
+        r = hash_fold(F, rep, q, rule, fn, an, w)
+        if r is not None:
+            return r
     if len(an.loops) != 1:
-        rep.bad(rule, q + ":loop", w, "UNRECOGNISED: expected exactly one loop over the name bytes, found %d" % len(an.loops))
+        rep.bad(rule, q + ":loop", w, "UNRECOGNISED: expected exactly one loop over the name bytes (or one `fold` over them), found %d loops" % len(an.loops))
         return None
     header = next(iter(an.loops))
     body = an.loops[header]
@@ -148,6 +152,36 @@ def hash_loop(F, rep, q, rule):
     return an, h, entry[0], back[0], byte, rt, w
 
 
+def hash_fold(F, rep, q, rule, fn, an, w):
+    """the same function written as `name.iter().fold(seed, |h, &b| step(h, b))`"""
+    from .terms import rebuild
+    folds = [c for c in an.calls() if c.declared_norm == "iter::Iterator::fold"]
+    if len(folds) != 1 or len(folds[0].args) != 3:
+        return None
+    fc = folds[0]
+    it, seed, clo = fc.arg_values()
+    src_ok = it.op == "call" and it.args[0] in ("[T]::iter",) and it.args[2] and it.args[2][0] is T.param(1)
+    rep.require(src_ok, rule, q + ":bytes", w, "folds over the bytes of the name argument once, in order",
+                "%s does not fold over `name.iter()` (found %s)" % (q, pp(it)[:120]))
+    if not src_ok or not (clo.op == "agg" and clo.args[0] == "closure"):
+        return None
+    cf = F.fn(clo.args[1]) if isinstance(clo.args[1], str) else None
+    if cf is None:
+        return None
+    can = analyze_fn(F, cf)
+    step = can.ret_term()
+    if step is None:
+        rep.bad(rule, q + ":accumulator", w, "UNRECOGNISED fold closure")
+        return None
+    h = T.param(2)
+    b = T.param(3)
+    bty = nm(cf["body"]["locals"][3]["ty"]) if len(cf["body"]["locals"]) > 3 else ""
+    byte = T.cast("IntToInt", T.deref(b) if bty.startswith("&") else b, "u8", "u32")
+    rt = an.ret_term()
+    rt2 = rebuild(rt, {fc.result: h}) if rt is not None else None
+    return an, h, seed, step, byte, rt2, w
+
+
 def gnu_hash_form(F, rep, rule="hash-function"):
     r = hash_loop(F, rep, "hash::gnu_hash", rule)
     if r is None:
@@ -177,6 +211,12 @@ def sysv_hash_form(F, rep, rule="hash-function"):
                     if m.op == "const" and m.args[1] == 0xf0 and s_.op == "bin" and s_.args[0] == "Shr" and s_.args[1] is L \
                             and s_.args[2].op == "const" and s_.args[2].args[1] == 24:
                         ok = True
+            # the same bits selected before shifting: (L & 0xf000_0000) >> 24
+            if lf == {"h": 16, "c": 1} and G.op == "bin" and G.args[0] == "Shr" and G.args[2].op == "const" and G.args[2].args[1] == 24 \
+                    and G.args[1].op == "bin" and G.args[1].args[0] == "BitAnd":
+                x, y = G.args[1].args[1], G.args[1].args[2]
+                if (x is L and y.op == "const" and y.args[1] == 0xf0000000) or (y is L and x.op == "const" and x.args[1] == 0xf0000000):
+                    ok = True
     rep.require(ok, rule, "sysv_hash:step", w, "h = (h<<4)+c; h ^= (h>>24) & 0xf0  (folded gABI form)",
                 "UNRECOGNISED sysv_hash step %s: not the folded gABI form h=(h*16+c); h ^= (h>>24)&0xf0 (an unenumerated form is not judged)" % detail)
     okr = rt is not None and rt.op == "bin" and rt.args[0] == "BitAnd" and ((rt.args[1] is h and rt.args[2].op == "const" and rt.args[2].args[1] == 0x0fffffff)
